@@ -18,6 +18,7 @@ type C20Plan struct {
 	M        int    `json:"m"` // 0 = default worker limit (simulated CPU count)
 	Delays   int    `json:"max_delays"`
 	DelaySeed uint64 `json:"delay_seed"`
+	Nested   int    `json:"nested,omitempty"` // >0: every work invocation calls Execute(Nested, ...) itself (re-entrant use)
 	Sim      SimCfg `json:"sim"`
 }
 
@@ -73,6 +74,9 @@ func (c20) Gen(seed uint64, run int, tier, variant string) interface{} {
 		}
 	}
 	p.Delays = r.Intn(4)
+	if r.Chance(12) && p.N <= 64 {
+		p.Nested = 1 + r.Intn(9)
+	}
 	p.DelaySeed = r.U64()
 	near := 0
 	if p.M == 0 {
@@ -91,6 +95,7 @@ func (c20) Decode(raw json.RawMessage) (interface{}, error) {
 func (c20) Sched(plan interface{}) []*SimCfg { return []*SimCfg{&plan.(*C20Plan).Sim} }
 
 type c20obs struct {
+	innerBad          string
 	ranges            [][2]int
 	started, finished int
 	atReturnStarted   int
@@ -116,6 +121,40 @@ func (c20) Exec(plan interface{}) Result {
 			for i := 0; i < d; i++ {
 				verifsim.Yield(siteC20Work) // adversarial delay inside the work function
 			}
+			if p.Nested > 0 {
+				// re-entrant use: the inner call must cover [0,Nested) exactly once and join
+				cover := make([]int, p.Nested)
+				var imu sync.Mutex
+				running := 0
+				parallel.Execute(p.Nested, func(s, e int) {
+					imu.Lock()
+					running++
+					imu.Unlock()
+					verifsim.Yield(siteC20Work)
+					imu.Lock()
+					for i := s; i < e && i >= 0 && i < len(cover); i++ {
+						cover[i]++
+					}
+					if s >= e || s < 0 || e > p.Nested {
+						cover[0] += 1000
+					}
+					running--
+					imu.Unlock()
+				}, 1+int(mix(p.DelaySeed^uint64(end))%5))
+				imu.Lock()
+				bad := running != 0
+				for _, c := range cover {
+					if c != 1 {
+						bad = true
+					}
+				}
+				imu.Unlock()
+				if bad {
+					mu.Lock()
+					o.innerBad = fmt.Sprintf("nested Execute(%d) inside work(%d,%d): coverage %v, still running %d", p.Nested, start, end, cover, running)
+					mu.Unlock()
+				}
+			}
 			mu.Lock()
 			o.finished++
 			mu.Unlock()
@@ -139,6 +178,12 @@ func (c20) Exec(plan interface{}) Result {
 		return res
 	}
 	o := obs
+	if o.innerBad != "" {
+		return mergeViolation(res, "nested-bad", "%s", o.innerBad)
+	}
+	if p.Nested > 0 {
+		res.note("re-entrant")
+	}
 	m := p.M
 	if m == 0 {
 		m = p.Sim.NumCPU
@@ -215,6 +260,9 @@ func (c20) Shrink(plan interface{}) []interface{} {
 		}
 		f(&q)
 		out = append(out, &q)
+	}
+	if p.Nested > 0 {
+		add(func(q *C20Plan) { q.Nested = 0 })
 	}
 	if p.Delays > 0 {
 		add(func(q *C20Plan) { q.Delays = 0 })
